@@ -106,3 +106,40 @@ package blockchain
 //@   assert@call Set: arg0 == storeBatch && !isnil(ret0(getDelLocalKV).KV[i].Value) && arg1 == ret0(getDelLocalKV).KV[i].Key && arg2 == ret0(getDelLocalKV).KV[i].Value
 //@   ensures result == nil <==> ret1(getDelLocalKV) == nil
 //@   loop 0 invariant 0 <= i
+
+// ---- C25: the fork-choice step (per call; convergence over a whole delivery history is not mechanised) ---
+//@ trusted func (*math/big.Int).Cmp
+//@   frame nothing
+//@   opt functional=yes
+//@ pure func (*math/big.Int).Add
+//@ pure func (*BlockStore).GetTdByBlockHash
+//@ pure func (*chainView).Tip
+//@ pure func (*chainView).FindFork
+//@ pure func (*finalizer).getLastFinalized
+//@ pure func (*finalizer).reset
+//@ pure func (*BlockChain).getReorganizeNodes
+//@ pure func (*BlockChain).connectBlock
+//@ pure func (*BlockChain).reorganizeChain
+//@ pure func github.com/33cn/chain33/util.CmpBestBlock
+//@ pure func github.com/33cn/chain33/common/difficulty.BigToCompact
+//@ pure func (*github.com/33cn/chain33/types.Chain33Config).GetModuleConfig
+
+// a block extends the best chain directly only when its parent is the tip; otherwise the best chain is
+// reorganised towards it only when its total difficulty (its own difficulty + the stored total of its
+// parent) is strictly greater than the tip's (or equal with the consensus tie-break in its favour) and it
+// is at least 12 above the finalised height; in every other case the best chain is left alone
+//@ func (*BlockChain).connectBestChain [C25]
+//@   opt safety=assumed overflow=assumed panics=allowed
+//@   requires node != nil && block != nil && block.Block != nil
+//@   assert@call connectBlock: ret(Equal) && arg1 == node
+//@   assert@call GetTdByBlockHash#0: arg1 == ret(Tip).hash
+//@   assert@call GetTdByBlockHash#1: arg1 == block.Block.ParentHash
+//@   assert@call Int).Add: arg1 == node.Difficulty && arg2 == ret0(GetTdByBlockHash, 1)
+//@   assert@call Int).Cmp: arg0 == ret(Add) && arg1 == ret0(GetTdByBlockHash, 0)
+//@   assert@call FindFork: arg1 == node
+//@   assert@call getReorganizeNodes: arg1 == node && arg2 == ret(FindFork)
+//@   assert@call reorganizeChain: !ret(Equal) && node.height >= ret0(getLastFinalized) + 12
+//@   assert@call reorganizeChain: ret(Cmp, 0) > 0 || (ret(Cmp, 0) == 0 && called(CmpBestBlock) && ret(CmpBestBlock) && node.height == ret(Tip).height)
+//@   assert@call reorganizeChain: arg1 == ret0(getReorganizeNodes) && arg2 == ret1(getReorganizeNodes)
+//@   ensures result2 == nil && result1 ==> called(connectBlock) || called(reorganizeChain)
+//@   ensures called(connectBlock) ==> !called(reorganizeChain)
